@@ -17,8 +17,6 @@ open AGV AGV.C05
 #print axioms varDisjoint_example
 #print axioms all_d
 #print axioms all_proj
-#print axioms sat_ignores_caches
-#print axioms rule_ref_equiv_cached
 #print axioms env_irrelevant
 #print axioms pattern_env_irrelevant
 #print axioms returns_self
@@ -29,7 +27,7 @@ open AGV AGV.C05
 #print axioms isMatchedI32_exact
 #print axioms stopBy_inclusive
 #print axioms all_permutation
-#print axioms nthChild_ofRule_relation_counterexample
+#print axioms nthChild_ofRule_relation_counts_sibling
 #print axioms varFree_needed_counterexample
 #print axioms global_constraints_counterexample
 #print axioms kind_cache_counterexample
